@@ -1041,10 +1041,18 @@ Proof.
     try (unfold noscan; ifs_nat; msimp; exact Logic.I);
     try (intros ? ? ? ? _ X; exact X).
   Ltac vloc s t V T HT Hpc := eapply (vinv_frame s _ t); try exact V; vside T HT Hpc.
-  Ltac vfin s t V T HT Hpc T0 :=
-    fin_tac; destruct Hfin as [[Fj [Frl Fh]] Fs]; destruct (start_props _ Fs) as (Fn & Fp & Fq);
+  Ltac fin_open :=
+    match goal with |- context [finish ?tt ?T0 ?v] =>
+      let H := fresh "Hfin" in
+      pose proof (finish_ok tt T0 v) as H; destruct (finish tt T0 v) as [?T2 ?e2]; cbn [fst snd] in H |- *;
+      destruct H as [[?Fj [?Frl ?Fh]] ?Fs];
+      match goal with Fs' : start_ok _ |- _ => destruct (start_props _ Fs') as (?Fn & ?Fp & ?Fq) end
+    end.
+  Ltac vfin s t V T HT Hpc :=
+    fin_open;
     eapply (vinv_frame s _ t); try exact V; try reflexivity;
     try (rewrite <- ?HT; msimp; congruence);
+    try (rewrite <- ?HT; msimp; rewrite ?Hpc; cbn [privp handp]; congruence);
     try (intros; apply noscan_vscan; auto; fail);
     try (apply start_vlocal; auto; fail);
     try (intros ? ? ? ? _ X; exact X).
@@ -1059,33 +1067,482 @@ Proof.
     eapply (vinv_frame s _ t); try exact V; vside T HT Hpc.
     msimp. intros u r i n Hu. apply vscan_push; auto.
     assert (Lu := Iloc u). unfold rlocal, rlocalP in Lu. destruct (pc (thr s u)); tauto.
-  - (* J7 *) destruct (rnext s (S t) =? 0); cbn [fst]; [vfin s t V T HT Hpc T|vloc s t V T HT Hpc].
+  - (* J7 *) destruct (rnext s (S t) =? 0); cbn [fst]; [vfin s t V T HT Hpc|vloc s t V T HT Hpc].
   - (* J8 *) vloc s t V T HT Hpc.
-  - (* J9 *) destruct (rnext s (cur T) =? 0); cbn [fst]; [vfin s t V T HT Hpc T|vloc s t V T HT Hpc].
-  - admit.
-  - admit.
+  - (* J9 *) destruct (rnext s (cur T) =? 0); cbn [fst]; [vfin s t V T HT Hpc|vloc s t V T HT Hpc].
+  - (* PA *) clear V1 V2 V3 V4 V5 V6 V7 V8 V9 V10.
+    destruct (pool s) as [|f p] eqn:Hp; cbn [fst]; [vfin s t V T HT Hpc|].
+    pose proof V as [V1 V2 V3 V4 V5 V6 V7 V8 V9 V10].
+    assert (HH : forall u, held (upd (thr s) t (set_pc (set_nn T f) P0) u) = held (thr s u)).
+    { intros u. thr_cases u t; msimp; congruence. }
+    assert (RL : forall u, rlist (upd (thr s) t (set_pc (set_nn T f) P0) u) = rlist (thr s u)).
+    { intros u. thr_cases u t; msimp; congruence. }
+    assert (NP : forall u i, held (thr s u) i <> 0 -> held (thr s u) i <> f).
+    { intros u i Hn E. apply (V4 u i Hn). rewrite Hp, E. left; auto. }
+    constructor; msimp.
+    + intros u i. rewrite HH. apply V1.
+    + intros u i. rewrite HH. apply V2.
+    + intros u i. rewrite HH. intros Hn. specialize (V3 u i Hn). thr_cases u t; msimp; congruence.
+    + intros u i. rewrite HH. intros Hn X. apply (V4 u i Hn). rewrite Hp. right; auto.
+    + intros u i w. rewrite HH. intros Hn. thr_cases w t; msimp; [|apply V5; auto].
+      intros _ E. apply (NP u i Hn). auto.
+    + intros u i. rewrite HH. intros Hn. unfold wherep; msimp.
+      destruct (V6 u i Hn) as [X|[[w [Y1 Y2]]|[w X]]].
+      * left; auto.
+      * right; left. exists w. thr_cases w t; [rewrite <- HT, Hpc in Y1; discriminate|auto].
+      * right; right. exists w. rewrite RL. auto.
+    + intros u i w. rewrite HH, RL. intros Hn Hr. thr_cases w t; [apply noscan_vscan; exact Logic.I|apply V7; auto].
+    + intros u. thr_cases u t; [exact Logic.I|].
+      assert (Lu := V8 u). unfold vlocal, vq4, vq5 in *; msimp.
+      destruct (pc (thr s u)); auto. destruct Lu as (A & B & C & D).
+      repeat match goal with H : _ /\ _ |- _ => destruct H end. repeat split; auto.
+      rewrite upd_other; auto. rewrite <- C. apply NP. congruence.
+    + intros u n. rewrite RL. apply V9.
+    + intros u. thr_cases u t; msimp; [discriminate|apply V10].
+  - (* P0 *) assert (Ho := n_own s Q t). rewrite <- HT, Hpc in Ho. specialize (Ho eq_refl).
+    unfold own in Ho. rewrite Hpc in Ho. cbn in Ho. destruct Ho as (C1 & C2 & C3 & C4 & C5).
+    assert (X1 : forall u n, In n (rlist (thr s u)) -> n <> nn T).
+    { intros u n Hr E. subst n. apply (C4 u). auto. }
+    assert (X2 : forall u, handp (pc (thr s u)) = true -> hh (thr s u) <> nn T).
+    { intros u Hu E. assert (u <> t) by (intros ->; rewrite <- HT, Hpc in Hu; discriminate).
+      apply (C5 u); auto; [unfold opc; rewrite Hu; apply orb_true_r|].
+      unfold own. rewrite Hu. destruct (privp (pc (thr s u))) eqn:X; [|auto].
+      destruct (pc (thr s u)); discriminate. }
+    assert (X3 : forall u, u <> t -> q58 (pc (thr s u)) = true -> qhead s = hh (thr s u) -> hh (thr s u) <> nn T).
+    { intros u Hu Hq Eq E. destruct (vlocal_q58 s u _ Hq (V8 u)) as [[A1 [A2 _]] _].
+      apply (V5 u 0 t); [congruence|rewrite <- HT, Hpc; auto|]. rewrite <- HT. congruence. }
+    apply vinv_nprev; auto; vside T HT Hpc.
   - (* P1 *) vloc s t V T HT Hpc.
-  - admit.
-  - admit.
+  - (* P2 *) eapply (vinv_slot s _ t _ 0 (hh T)); try exact V; vside T HT Hpc.
+    unfold vlocal; msimp. now rewrite !upd_same.
+  - (* P3 *) destruct (Nat.eqb_spec (qtail s) (hh T)) as [E|E]; cbn [fst]; [|vloc s t V T HT Hpc].
+    assert (Hs0 : slot s (S t) 0 = hh T) by exact VT.
+    assert (Hq : In (hh T) (qs s)) by (rewrite <- E, (q_tail s Q); apply last_in; apply (q_ne s Q)).
+    apply (vinv_validate s t _ 0 (hh T)); auto; vside T HT Hpc.
   - (* P4 *) vloc s t V T HT Hpc.
-  - admit.
-  - admit.
-  - admit.
+  - (* P5 *) destruct (Nat.eqb_spec (qtail s) (hh T)) as [E|E]; cbn [fst]; [|vloc s t V T HT Hpc].
+    assert (HH : forall u, held (upd (thr s) t (set_pc T P6) u) = held (thr s u)).
+    { intros u. thr_cases u t; msimp; congruence. }
+    assert (RL : forall u, rlist (upd (thr s) t (set_pc T P6) u) = rlist (thr s u)).
+    { intros u. thr_cases u t; msimp; congruence. }
+    constructor; msimp.
+    + intros u i. rewrite HH. apply V1.
+    + intros u i. rewrite HH. apply V2.
+    + intros u i. rewrite HH. intros Hn. specialize (V3 u i Hn). thr_cases u t; msimp; congruence.
+    + intros u i. rewrite HH. apply V4.
+    + intros u i w. rewrite HH. intros Hn. thr_cases w t; msimp; [discriminate|apply V5; auto].
+    + intros u i. rewrite HH. intros Hn. unfold wherep; msimp.
+      destruct (V6 u i Hn) as [X|[[w [Y1 Y2]]|[w X]]].
+      * left. apply in_or_app; auto.
+      * right; left. exists w. thr_cases w t; [rewrite <- HT, Hpc in Y1; discriminate|auto].
+      * right; right. exists w. rewrite RL. auto.
+    + intros u i w. rewrite HH, RL. intros Hn Hr. thr_cases w t; [apply noscan_vscan; exact Logic.I|apply V7; auto].
+    + intros u. thr_cases u t; [exact Logic.I|].
+      assert (Lu := V8 u). unfold vlocal, vq4, vq5 in *; msimp.
+      assert (K : held (thr s u) 0 = hh (thr s u) -> hh (thr s u) <> 0 ->
+                  In (hh (thr s u)) (qs s ++ [nn T]) -> In (hh (thr s u)) (qs s)).
+      { intros A B X. apply in_app_or in X. destruct X as [X|[X|[]]]; auto. exfalso.
+        apply (V5 u 0 t); [congruence|rewrite <- HT, Hpc; auto|]. rewrite <- HT. congruence. }
+      destruct (pc (thr s u)); auto;
+        repeat match goal with H : _ /\ _ |- _ => destruct H end; repeat split; auto.
+    + intros u n. rewrite RL. apply V9.
+    + intros u. thr_cases u t; msimp; [discriminate|apply V10].
+  - (* P6 *) destruct (q_p6 s Q t) as [Hadj Hz]; [rewrite <- HT; auto|]. rewrite <- HT in *.
+    destruct (adj_in _ _ _ (q_nz s Q) Hadj) as [Hhq _].
+    assert (X1 : forall u n, In n (rlist (thr s u)) -> n <> hh T).
+    { intros u n Hr E. subst n. apply (n_q_rl s Q _ u Hhq Hr). }
+    assert (X2 : forall u, handp (pc (thr s u)) = true -> hh (thr s u) <> hh T).
+    { intros u Hu E.
+      assert (Ou : opc (pc (thr s u)) = true) by (unfold opc; rewrite Hu; apply orb_true_r).
+      destruct (n_own s Q u Ou) as (_ & D2 & _). apply D2. unfold own. rewrite Hu.
+      destruct (privp (pc (thr s u))) eqn:X; [destruct (pc (thr s u)); discriminate|]. congruence. }
+    assert (X3 : forall u, u <> t -> q58 (pc (thr s u)) = true -> qhead s = hh (thr s u) -> hh (thr s u) <> hh T).
+    { intros u Hu Hq Eq E. destruct (vlocal_q58 s u _ Hq (V8 u)) as [_ [B1 B2]].
+      specialize (B2 Eq). congruence. }
+    apply vinv_nprev; auto; vside T HT Hpc.
+  - (* P7 *) fin_open. eapply (vinv_slot s _ t _ 0 0); try exact V; try reflexivity;
+      try (rewrite <- ?HT; msimp; congruence);
+      try (rewrite <- ?HT; msimp; rewrite ?Hpc; cbn [privp handp]; congruence); auto.
+    apply start_vlocal; auto.
   - (* Q1 *) vloc s t V T HT Hpc.
-  - admit.
-  - admit.
-  - admit.
-  - admit.
-  - admit.
-  - admit.
-  - admit.
-  - admit.
-  - admit.
-  - admit.
-  - (* R1 *) destruct (rthr s (S t) <=? length (rlist T)); cbn [fst]; [vloc s t V T HT Hpc|vfin s t V T HT Hpc T].
-  - admit.
-  - admit.
-  - admit.
-  - admit.
+  - (* Q2 *) eapply (vinv_slot s _ t _ 0 (hh T)); try exact V; vside T HT Hpc.
+    unfold vlocal; msimp. now rewrite !upd_same.
+  - (* Q3 *) destruct (Nat.eqb_spec (qhead s) (hh T)) as [E|E]; cbn [fst]; [|vloc s t V T HT Hpc].
+    assert (Hq : In (hh T) (qs s)).
+    { rewrite <- E, (q_head s Q). pose proof (q_ne s Q). destruct (qs s); [tauto|left; auto]. }
+    assert (Hs0 : slot s (S t) 0 = hh T) by exact VT.
+    assert (Hl : vlocal s t (set_pc (set_held T (upd (held T) 0 (hh T))) Q4)).
+    { unfold vlocal, vq4; msimp. rewrite upd_same. repeat split; auto.
+      intros X. apply (q_nz s Q). congruence. }
+    apply (vinv_validate s t _ 0 (hh T)); auto; vside T HT Hpc.
+  - (* Q4 *) eapply (vinv_frame s _ t); try exact V; vside T HT Hpc.
+    unfold vlocal. destruct (Nat.eqb_spec (nprev s (hh T)) 0) as [E|E]; msimp; [exact Logic.I|].
+    split; [exact VT|]. unfold vq5; msimp. auto.
+  - (* Q4e *) fin_open. eapply (vinv_slot s _ t _ 0 0); try exact V; try reflexivity;
+      try (rewrite <- ?HT; msimp; congruence);
+      try (rewrite <- ?HT; msimp; rewrite ?Hpc; cbn [privp handp]; congruence); auto.
+    apply start_vlocal; auto.
+  - (* Q5 *) eapply (vinv_slot s _ t _ 1 (pv T)); try exact V; vside T HT Hpc.
+    destruct VT as [[A1 [A2 A3]] [B1 B2]].
+    unfold vlocal, vq4, vq5; msimp. rewrite !upd_same. rewrite upd_other by auto. repeat split; auto.
+  - (* Q6 *) destruct (Nat.eqb_spec (qhead s) (hh T)) as [E|E]; cbn [fst]; [|vloc s t V T HT Hpc].
+    destruct VT as ([A1 [A2 A3]] & [B1 B2] & Hs).
+    assert (Hq : In (pv T) (qs s)).
+    { destruct (head_succ s (pv T) Q) as [r2 Er]; [rewrite E; auto|auto|]. rewrite Er. right; left; auto. }
+    assert (Hl : vlocal s t (set_pc (set_held T (upd (held T) 1 (pv T))) Q7)).
+    { unfold vlocal, vq4, vq5; msimp. rewrite upd_same. rewrite upd_other by auto. repeat split; auto. }
+    apply (vinv_validate s t _ 1 (pv T)); auto; vside T HT Hpc.
+  - (* Q7 *) eapply (vinv_frame s _ t); try exact V; vside T HT Hpc.
+    unfold vlocal, vq4, vq5 in *; msimp. destruct VT as ((A1 & A2 & A3) & (B1 & B2) & C). repeat split; auto.
+  - (* Q8 *) destruct (Nat.eqb_spec (qhead s) (hh T)) as [E|E]; cbn [fst]; [|vloc s t V T HT Hpc].
+    destruct VT as ([A1 [A2 A3]] & [B1 B2] & Hh1 & Hrv). specialize (B2 E).
+    destruct (head_succ s (pv T) Q) as [r2 Er]; [rewrite E; auto|auto|]. rewrite E in Er.
+    pose proof (q_nodup s Q) as Hnd. rewrite Er in Hnd. apply NoDup_cons_iff in Hnd. destruct Hnd as [Hn0 Hnd].
+    apply NoDup_cons_iff in Hnd. destruct Hnd as [Hn1 _].
+    assert (HH : forall u, held (upd (thr s) t (set_pc T Q9) u) = held (thr s u)).
+    { intros u. thr_cases u t; msimp; congruence. }
+    assert (RL : forall u, rlist (upd (thr s) t (set_pc T Q9) u) = rlist (thr s u)).
+    { intros u. thr_cases u t; msimp; congruence. }
+    constructor; msimp; rewrite ?Er; cbn [tl].
+    + intros u i. rewrite HH. apply V1.
+    + intros u i. rewrite HH. apply V2.
+    + intros u i. rewrite HH. intros Hn. specialize (V3 u i Hn). thr_cases u t; msimp; congruence.
+    + intros u i. rewrite HH. apply V4.
+    + intros u i w. rewrite HH. intros Hn. thr_cases w t; msimp; [discriminate|apply V5; auto].
+    + intros u i. rewrite HH. intros Hn. unfold wherep; msimp.
+      destruct (V6 u i Hn) as [X|[[w [Y1 Y2]]|[w X]]].
+      * rewrite Er in X. destruct X as [X|X]; [|left; auto].
+        right; left. exists t. rewrite upd_same. msimp. auto.
+      * right; left. exists w. thr_cases w t; [rewrite <- HT, Hpc in Y1; discriminate|auto].
+      * right; right. exists w. rewrite RL. auto.
+    + intros u i w. rewrite HH, RL. intros Hn Hr. thr_cases w t; [apply noscan_vscan; exact Logic.I|apply V7; auto].
+    + intros u. thr_cases u t; [exact Logic.I|].
+      assert (Lu := V8 u). unfold vlocal, vq4, vq5 in *; msimp. rewrite Er in Lu.
+      assert (K1 : hh (thr s u) <> 0 -> (In (hh (thr s u)) (hh T :: pv T :: r2) -> hh (thr s u) = qhead s) ->
+                   In (hh (thr s u)) (pv T :: r2) -> hh (thr s u) = pv T).
+      { intros _ A X. exfalso. apply Hn0. rewrite <- E, <- (A (or_intror X)). exact X. }
+      assert (K2 : forall z, (In (hh (thr s u)) (hh T :: pv T :: r2) -> hh (thr s u) = qhead s) ->
+                   pv T = hh (thr s u) -> z).
+      { intros z A X. exfalso. apply Hn0. rewrite <- E, <- (A (or_intror (or_introl X))), <- X. left; auto. }
+      destruct (pc (thr s u)); auto;
+        repeat match goal with H : _ /\ _ |- _ => destruct H end; repeat split; auto;
+        intros; eapply K2; eauto.
+    + intros u n. rewrite RL. apply V9.
+    + intros u. thr_cases u t; msimp; [intros _; congruence|apply V10].
+  - (* Q9 *) eapply (vinv_slot s _ t _ 0 0); try exact V; vside T HT Hpc.
+  - (* Q10 *) set (T' := set_pc (set_rlist (set_held T (upd (held T) 1 0)) (hh T :: rlist T)) R1).
+    assert (HH : forall u i, held (upd (thr s) t T' u) i <> 0 ->
+               held (upd (thr s) t T' u) i = held (thr s u) i /\ held (thr s u) i <> 0 /\ (u = t -> i <> 1)).
+    { intros u i. thr_cases u t; [|intros; repeat split; auto; tauto].
+      unfold T'; msimp. destruct (Nat.eq_dec i 1) as [->|Hik]; [rewrite upd_same; tauto|].
+      rewrite upd_other by auto. rewrite <- HT. auto. }
+    assert (RL : forall u, rlist (upd (thr s) t T' u) = if u =? t then hh T :: rlist T else rlist (thr s u)).
+    { intros u. unfold upd. destruct (u =? t); reflexivity. }
+    constructor; msimp.
+    + intros u i Hn. destruct (HH u i Hn) as (E & Hn' & _). eauto.
+    + intros u i Hn. destruct (HH u i Hn) as (E & Hn' & Hk). rewrite E.
+      destruct (Nat.eq_dec u t) as [->|Hne].
+      * rewrite upd_same, upd_other by auto. auto.
+      * rewrite upd_other by congruence. auto.
+    + intros u i Hn. destruct (HH u i Hn) as (E & Hn' & _). specialize (V3 u i Hn').
+      thr_cases u t; [unfold T'; msimp; congruence|auto].
+    + intros u i Hn. destruct (HH u i Hn) as (E & Hn' & _). rewrite E. auto.
+    + intros u i w Hn. destruct (HH u i Hn) as (E & Hn' & _). rewrite E.
+      thr_cases w t; [unfold T'; msimp; discriminate|apply V5; auto].
+    + intros u i Hn. destruct (HH u i Hn) as (E & Hn' & _). rewrite E. unfold wherep; msimp.
+      destruct (V6 u i Hn') as [X|[[w [Y1 Y2]]|[w X]]].
+      * left; auto.
+      * destruct (Nat.eq_dec w t) as [->|Hw].
+        -- right; right. exists t. rewrite RL, Nat.eqb_refl. left. rewrite <- HT in Y2. auto.
+        -- right; left. exists w. rewrite upd_other by auto. auto.
+      * right; right. exists w. rewrite RL. destruct (Nat.eqb_spec w t) as [->|]; auto.
+        right. rewrite <- HT in X. auto.
+    + intros u i w Hn. destruct (HH u i Hn) as (E & Hn' & _). rewrite E, RL.
+      thr_cases w t; [intros _; apply noscan_vscan; exact Logic.I|].
+      destruct (Nat.eqb_spec w t); [contradiction|]. apply V7; auto.
+    + intros u. thr_cases u t; [exact Logic.I|].
+      apply (vlocal_ext2 s); auto. msimp. rewrite upd_other; auto; congruence.
+    + intros u n. rewrite RL. destruct (Nat.eqb_spec u t) as [->|]; [|apply V9].
+      intros [<-|X]; [rewrite HT; apply (V10 t); rewrite <- HT, Hpc; auto|apply (V9 t); rewrite <- HT; auto].
+    + intros u. thr_cases u t; [unfold T'; msimp; discriminate|apply V10].
+  - (* R1 *) destruct (rthr s (S t) <=? length (rlist T)); cbn [fst]; [vloc s t V T HT Hpc|vfin s t V T HT Hpc].
+  - (* S1 *) eapply (vinv_frame s _ t); try exact V; vside T HT Hpc.
+    msimp. intros u i Hn Hi Hj Hs Hr _. unfold vscan; msimp. rewrite Ih, from_hd by auto. apply Ij. auto.
+  - (* S2 *) destruct LT as [J Hc]. eapply (vinv_frame s _ t); try exact V; vside T HT Hpc.
+    msimp. intros u i Hn Hi Hj Hs Hr. rewrite <- HT. unfold vscan; rewrite Hpc; msimp.
+    destruct (from_in_hd _ _ Hc) as [tl0 E]. rewrite E. cbn [In tl]. intros [X|X]; [left; split; [auto|lia]|auto].
+  - (* S3 *) destruct LT as (J & Hc). eapply (vinv_frame s _ t); try exact V; vside T HT Hpc.
+    msimp. intros u i Hn Hik Hj Hs Hr. rewrite <- HT. unfold vscan at 1; rewrite Hpc.
+    intros [[X1 X2]|[X|X]].
+    + destruct (Nat.eq_dec (idx T) i) as [Ei|Ei].
+      * rewrite <- X1, Ei, Hs.
+        destruct (Nat.eqb_spec (held (thr s u) i) 0); [contradiction|].
+        unfold vscan. ifs; msimp; [right; right|right]; apply in_or_app; right; cbn; auto.
+      * unfold KS. destruct (Nat.ltb_spec (S (idx T)) 2); [|lia].
+        unfold vscan; msimp. left. split; auto. lia.
+    + unfold vscan. ifs; msimp; auto.
+    + assert (In (held (thr s u) i) (snap T ++ [slot s (cur T) (idx T)])) by (apply in_or_app; auto).
+      unfold vscan. ifs; msimp; auto.
+  - (* S4 *) destruct LT as (J & Hc).
+    destruct (from_next (rnext s) (recs s) (cur T) Ind Il Inz Hc) as [[A B]|[A [B D]]].
+    + rewrite A. cbn [Nat.eqb]. fin_open. msimp.
+      set (keep := scan_keep sort (snap T) (rlist T)) in *.
+      set (gcl := scan_gc sort (snap T) (rlist T)) in *.
+      assert (HH : forall u, held (upd (thr s) t T2 u) = held (thr s u)).
+      { intros u. thr_cases u t; congruence. }
+      assert (RL : forall u, rlist (upd (thr s) t T2 u) = if u =? t then keep else rlist (thr s u)).
+      { intros u. unfold upd. destruct (u =? t); auto. }
+      assert (SAFE : forall u i, held (thr s u) i <> 0 -> ~ In (held (thr s u) i) gcl).
+      { intros u i Hn. unfold gcl. rewrite HT. apply safe_gc; auto; rewrite <- HT; auto. }
+      assert (KEEP : forall u i, held (thr s u) i <> 0 -> In (held (thr s u) i) (rlist T) -> In (held (thr s u) i) keep).
+      { intros u i Hn Hr. apply keep_in. split; auto.
+        destruct (bsearch (sort (snap T)) (held (thr s u) i)) eqn:X; auto. exfalso.
+        apply (SAFE u i Hn). apply gc_in. auto. }
+      constructor; msimp.
+      * intros u i. rewrite HH. apply V1.
+      * intros u i. rewrite HH. apply V2.
+      * intros u i. rewrite HH. intros Hn. specialize (V3 u i Hn). thr_cases u t; congruence.
+      * intros u i. rewrite HH. intros Hn. rewrite in_app_iff, <- in_rev. intros [X|X]; [apply (SAFE u i Hn X)|apply (V4 u i Hn X)].
+      * intros u i w. rewrite HH. intros Hn. thr_cases w t; [congruence|apply V5; auto].
+      * intros u i. rewrite HH. intros Hn. unfold wherep; msimp.
+        destruct (V6 u i Hn) as [X|[[w [Y1 Y2]]|[w X]]].
+        -- left; auto.
+        -- right; left. exists w. thr_cases w t; [rewrite <- HT, Hpc in Y1; discriminate|auto].
+        -- right; right. exists w. rewrite RL. destruct (Nat.eqb_spec w t) as [->|]; auto.
+           apply KEEP; auto. rewrite HT. auto.
+      * intros u i w. rewrite HH, RL. intros Hn. thr_cases w t; [intros _; apply noscan_vscan; auto|].
+        destruct (Nat.eqb_spec w t); [contradiction|]. apply V7; auto.
+      * intros u. thr_cases u t; [apply start_vlocal; auto|exact (V8 u)].
+      * intros u n. rewrite RL. destruct (Nat.eqb_spec u t) as [->|]; [|apply V9].
+        intros X. apply keep_in in X. apply (V9 t). rewrite <- HT. tauto.
+      * intros u. thr_cases u t; [congruence|apply V10].
+    + destruct (Nat.eqb_spec (rnext s (cur T)) 0) as [E|_]; [contradiction|]. cbn [fst].
+      eapply (vinv_frame s _ t); try exact V; vside T HT Hpc.
+      msimp. intros u i Hn Hik Hj Hs Hr. rewrite <- HT. unfold vscan; rewrite Hpc; msimp.
+      rewrite D. cbn [tl]. destruct (from_in_hd _ _ B) as [tl0 E]. rewrite E. cbn [In tl].
+      intros [[X|X]|X]; auto. left. split; [auto|lia].
   - (* Fin *) exact V.
-Admitted.
+Qed.
+
+End Proofs2.
+
+(* ================================================================== *)
+(* F. initial state                                                     *)
+(* ================================================================== *)
+Lemma last_seq a n : last (seq a (S n)) 0 = a + n.
+Proof.
+  revert a. induction n as [|n IH]; intros a; [cbn; lia|].
+  change (seq a (S (S n))) with (a :: seq (S a) (S n)).
+  change (last (a :: seq (S a) (S n)) 0) with (last (seq (S a) (S n)) 0). rewrite IH. lia.
+Qed.
+
+Lemma adj_seq a b k n : adj a b (seq k n) -> b = S a /\ k <= a /\ S a < k + n.
+Proof.
+  revert k. induction n as [|n IH]; intros k; cbn [seq adj]; [tauto|].
+  intros [[<- [Hb Hr]]|H].
+  - destruct n; [cbn in Hr; tauto|]. cbn in Hb. subst. lia.
+  - destruct (IH _ H) as (A & B & C). lia.
+Qed.
+
+Lemma init_qinv P NN Mq progs : QInv (init P NN Mq progs).
+Proof.
+  assert (RL : forall t, rlist (thr (init P NN Mq progs) t) = []) by (intros t; apply init_thr_ok).
+  assert (ST : forall t, start_ok (thr (init P NN Mq progs) t)) by (intros t; apply init_thr_ok).
+  assert (NO : forall t, opc (pc (thr (init P NN Mq progs) t)) = false /\
+                         pc (thr (init P NN Mq progs) t) <> P6 /\ p15 (pc (thr (init P NN Mq progs) t)) = false).
+  { intros t. destruct (start_not_own _ (ST t)) as (A & B & C & D). auto. }
+  constructor; try (intros; rewrite RL in *; cbn in *; tauto); try (intros t; rewrite RL; constructor).
+  - cbn [qs init]. discriminate.
+  - reflexivity.
+  - cbn [qtail qs init]. rewrite last_seq. lia.
+  - cbn [qs init]. apply seq_NoDup.
+  - cbn [qs init]. rewrite in_seq. lia.
+  - cbn [qs nprev init]. intros a b Hab. apply adj_seq in Hab. destruct Hab as (-> & A & B). left.
+    destruct (Nat.leb_spec 1 a); [|lia]. destruct (Nat.leb_spec a Mq); [|lia]. reflexivity.
+  - cbn [qtail nprev init]. destruct (Nat.leb_spec (S Mq) Mq); [lia|]. now rewrite andb_false_r.
+  - intros t X. exfalso. apply (proj1 (proj2 (NO t))). exact X.
+  - intros t u X. exfalso. apply (proj1 (proj2 (NO t))). exact X.
+  - intros t X. destruct (NO t) as (_ & _ & Y). congruence.
+  - cbn [pool init]. apply seq_NoDup.
+  - cbn [pool init]. rewrite in_seq. lia.
+  - cbn [qs pool init]. intros n. rewrite !in_seq. lia.
+  - intros t X. destruct (NO t) as (Y & _). congruence.
+Qed.
+
+Lemma init_vinv P NN Mq progs : VInv (init P NN Mq progs).
+Proof.
+  assert (H0 : forall u i, held (thr (init P NN Mq progs) u) i = 0) by (intros u; apply init_thr_ok).
+  assert (RL : forall t, rlist (thr (init P NN Mq progs) t) = []) by (intros t; apply init_thr_ok).
+  assert (ST : forall t, start_ok (thr (init P NN Mq progs) t)) by (intros t; apply init_thr_ok).
+  constructor; try (intros u i; rewrite H0; tauto); try (intros u i w; rewrite H0; tauto).
+  - intros t. apply start_vlocal. apply ST.
+  - intros t n. rewrite RL. cbn. tauto.
+  - intros t X. destruct (start_props _ (ST t)) as (_ & _ & Y). congruence.
+Qed.
+
+(* ================================================================== *)
+(* G. the combined invariant over every reachable state                 *)
+(* ================================================================== *)
+Record Inv (s : st) : Prop := { i_r : RInv s; i_q : QInv s; i_v : VInv s }.
+
+Section Proofs3.
+Variable sort : list nat -> list nat.
+Hypothesis sort_perm : forall l, Permutation l (sort l).
+Hypothesis sort_sorted : forall l, Sorted le (sort l).
+
+Lemma step_inv s t : Inv s -> Inv (fst (step sort s t)).
+Proof.
+  intros [R Q V]. constructor.
+  - apply rinv_step; auto.
+  - apply qinv_step; auto.
+  - apply vinv_step; auto.
+Qed.
+
+Lemma init_inv P NN Mq progs : Inv (init P NN Mq progs).
+Proof. constructor; [apply init_rinv|apply init_qinv|apply init_vinv]. Qed.
+
+Theorem reachable_inv P NN Mq progs s : reachable (M sort) (init P NN Mq progs) s -> Inv s.
+Proof.
+  apply (invariant_ind (M sort) Inv (init P NN Mq progs)).
+  - apply init_inv.
+  - intros s0 t I _. apply step_inv; exact I.
+Qed.
+
+(* ---------------- statements over the base machine ---------------- *)
+(* the node whose field the next step of thread t reads or writes *)
+Definition accessed (s : st) (t : nat) : option nat :=
+  let T := thr s t in
+  match pc T with
+  | P0 | P4 => Some (nn T)      (* new_node->prev = NULL; new_node->next = tail *)
+  | P6 => Some (hh T)           (* tail->prev = new_node *)
+  | Q4 => Some (hh T)           (* head->prev *)
+  | Q7 => Some (pv T)           (* prev->value *)
+  | _ => None
+  end.
+
+Lemma no_deref_of_inv s t n : Inv s -> accessed s t = Some n -> n <> 0 /\ ~ In n (pool s).
+Proof.
+  intros [R Q V]. unfold accessed. destruct (pc (thr s t)) eqn:Hpc; try discriminate; intros E; inversion E; subst.
+  - assert (Ho := n_own s Q t). rewrite Hpc in Ho. specialize (Ho eq_refl). unfold own in Ho. rewrite Hpc in Ho. cbn in Ho. tauto.
+  - assert (Ho := n_own s Q t). rewrite Hpc in Ho. specialize (Ho eq_refl). unfold own in Ho. rewrite Hpc in Ho. cbn in Ho. tauto.
+  - destruct (q_p6 s Q t Hpc) as [Ha _]. destruct (adj_in _ _ _ (q_nz s Q) Ha) as [Hq _]. split.
+    + intros X. apply (q_nz s Q). congruence.
+    + intros X. apply (n_q_pool s Q _ Hq X).
+  - assert (L := v_loc s V t). unfold vlocal in L. rewrite Hpc in L. destruct L as (A1 & A2 & _).
+    split; auto. rewrite <- A1. apply (v_pool s V). congruence.
+  - assert (L := v_loc s V t). unfold vlocal in L. rewrite Hpc in L. destruct L as (_ & [B1 _] & C).
+    split; auto. rewrite <- C. apply (v_pool s V). congruence.
+Qed.
+
+Lemma empty_justified_of_inv s t : Inv s -> pc (thr s t) = Q4 -> nprev s (hh (thr s t)) = 0 ->
+  hh (thr s t) = qhead s /\
+  (tl (qs s) = [] \/
+   exists u, pc (thr s u) = P6 /\ hh (thr s u) = qhead s /\ nn (thr s u) = hd 0 (tl (qs s))).
+Proof.
+  intros [R Q V] Hpc Hz.
+  assert (L := v_loc s V t). unfold vlocal in L. rewrite Hpc in L. destruct L as (A1 & A2 & A3).
+  assert (Hn : held (thr s t) 0 <> 0) by congruence.
+  assert (Hq : In (hh (thr s t)) (qs s)).
+  { destruct (v_where s V t 0 Hn) as [X|[[w [Y1 Y2]]|[w X]]]; rewrite A1 in *; auto; exfalso.
+    - apply (v_handnz s V w Y1). congruence.
+    - apply (v_rlnz s V w _ X). auto. }
+  specialize (A3 Hq). split; auto.
+  pose proof (q_ne s Q) as N1. pose proof (q_head s Q) as N2.
+  destruct (qs s) as [|n0 rest] eqn:E; [tauto|]. cbn [hd] in N2. cbn [tl].
+  destruct rest as [|n1 r2]; [left; auto|right]. cbn [hd].
+  destruct (q_link s Q n0 n1) as [X|[X [u (U1 & U2 & U3)]]]; [rewrite E; cbn; left; repeat split; auto; discriminate| |].
+  - exfalso. assert (n1 <> 0). { intros ->. apply (q_nz s Q). rewrite E. right; left; auto. } congruence.
+  - exists u. repeat split; auto. congruence.
+Qed.
+
+Lemma head_cas_of_inv s t : Inv s -> pc (thr s t) = Q8 -> qhead s = hh (thr s t) ->
+  exists r2, qs s = hh (thr s t) :: pv (thr s t) :: r2 /\ rv (thr s t) = nval s (pv (thr s t)) /\
+             held (thr s t) 0 = hh (thr s t) /\ held (thr s t) 1 = pv (thr s t) /\
+             ~ In (hh (thr s t)) (pool s) /\ ~ In (pv (thr s t)) (pool s).
+Proof.
+  intros [R Q V] Hpc E.
+  assert (L := v_loc s V t). unfold vlocal in L. rewrite Hpc in L.
+  destruct L as ((A1 & A2 & A3) & (B1 & B2) & C & D). specialize (B2 E).
+  destruct (head_succ s (pv (thr s t)) Q) as [r2 Er]; [rewrite E; auto|auto|]. rewrite E in Er.
+  exists r2. repeat split; auto.
+  - rewrite <- A1. apply (v_pool s V). congruence.
+  - rewrite <- C. apply (v_pool s V). congruence.
+Qed.
+
+Definition gc_list (s : st) (t : nat) : list nat :=
+  match pc (thr s t) with
+  | S4 => if rnext s (cur (thr s t)) =? 0
+          then scan_gc sort (snap (thr s t)) (rlist (thr s t)) else []
+  | _ => []
+  end.
+
+Lemma safe_of_inv s t u i : Inv s -> held (thr s u) i <> 0 -> ~ In (held (thr s u) i) (gc_list s t).
+Proof.
+  intros I Hn. unfold gc_list. destruct (pc (thr s t)) eqn:Hpc; auto.
+  destruct (Nat.eqb_spec (rnext s (cur (thr s t))) 0) as [E|E]; auto.
+  apply (safe_gc sort sort_perm sort_sorted); auto; apply I.
+Qed.
+
+Lemma gc_step s t : pc (thr s t) = S4 -> rnext s (cur (thr s t)) = 0 ->
+  pool (fst (step sort s t)) = rev (gc_list s t) ++ pool s.
+Proof.
+  intros Hpc Hnx. unfold step, gc_list. rewrite Hpc, Hnx. cbn [Nat.eqb].
+  destruct (finish _ _ _) as [T2 e2]. reflexivity.
+Qed.
+
+(* ---------------- the instrumented machine ---------------- *)
+(* plog: values in tail-CAS order; qlog: values in head-CAS order; gen n:
+   how many times node n was allocated; hgen t: the generation of the head
+   that thread t validated at Q3 *)
+Record ist := { base : st; plog : list nat; qlog : list nat; gen : nat -> nat; hgen : nat -> nat }.
+
+Definition lstep (x : ist) (t : nat) : ist :=
+  let s := base x in
+  let T := thr s t in
+  let s' := fst (step sort s t) in
+  match pc T with
+  | PA => match pool s with
+          | f :: _ => {| base := s'; plog := plog x; qlog := qlog x;
+                         gen := upd (gen x) f (S (gen x f)); hgen := hgen x |}
+          | [] => {| base := s'; plog := plog x; qlog := qlog x; gen := gen x; hgen := hgen x |}
+          end
+  | P5 => if qtail s =? hh T
+          then {| base := s'; plog := plog x ++ [arg T]; qlog := qlog x; gen := gen x; hgen := hgen x |}
+          else {| base := s'; plog := plog x; qlog := qlog x; gen := gen x; hgen := hgen x |}
+  | Q3 => if qhead s =? hh T
+          then {| base := s'; plog := plog x; qlog := qlog x; gen := gen x;
+                  hgen := upd (hgen x) t (gen x (hh T)) |}
+          else {| base := s'; plog := plog x; qlog := qlog x; gen := gen x; hgen := hgen x |}
+  | Q8 => if qhead s =? hh T
+          then {| base := s'; plog := plog x; qlog := qlog x ++ [rv T]; gen := gen x; hgen := hgen x |}
+          else {| base := s'; plog := plog x; qlog := qlog x; gen := gen x; hgen := hgen x |}
+  | _ => {| base := s'; plog := plog x; qlog := qlog x; gen := gen x; hgen := hgen x |}
+  end.
+
+Lemma lstep_erase x t : base (lstep x t) = fst (step sort (base x) t).
+Proof.
+  unfold lstep. destruct (pc (thr (base x) t)); try reflexivity;
+    try (destruct (pool (base x)); reflexivity);
+    match goal with |- context [if ?b then _ else _] => destruct b end; reflexivity.
+Qed.
+
+Definition iinit P NN Mq progs : ist :=
+  {| base := init P NN Mq progs; plog := map (nval (init P NN Mq progs)) (seq 2 Mq); qlog := [];
+     gen := fun _ => 0; hgen := fun _ => 0 |}.
+
+Inductive ireach P NN Mq progs : ist -> Prop :=
+| ir_init : ireach P NN Mq progs (iinit P NN Mq progs)
+| ir_step x t : ireach P NN Mq progs x -> ireach P NN Mq progs (lstep x t).
+
+Definition irun (x : ist) (sch : list nat) : ist := fold_left lstep sch x.
+Lemma ireach_irun P NN Mq progs sch : forall x, ireach P NN Mq progs x -> ireach P NN Mq progs (irun x sch).
+Proof. induction sch as [|t r IH]; intros x R; cbn; auto. apply IH. constructor. exact R. Qed.
+
+Definition q48 (p : pcT) : bool := match p with Q4 | Q5 | Q6 | Q7 | Q8 => true | _ => false end.
+
+Record LInv (x : ist) : Prop := {
+  l_inv : Inv (base x);
+  l_hist : plog x = qlog x ++ map (nval (base x)) (tl (qs (base x)));
+  l_arg : forall t, privp (pc (thr (base x) t)) = true -> nval (base x) (nn (thr (base x) t)) = arg (thr (base x) t);
+  l_gen : forall t, q48 (pc (thr (base x) t)) = true -> gen x (hh (thr (base x) t)) = hgen x t
+}.
